@@ -191,6 +191,9 @@ impl H263State {
                 vec![DecodedDctBlock::Zero; level_dimensions.0 * level_dimensions.1 / 4 / 64];
 
             loop {
+                #[cfg(feature = "verif")]
+                crate::verif::mb_iteration(reader.verif_position().0, macroblock_types.len());
+
                 let mb = decode_macroblock(
                     reader,
                     next_decoded_picture.as_header(),
